@@ -337,13 +337,13 @@ func rootIsParam(v ssa.Value, name string) bool {
 			v = x.X
 		case *ssa.Alloc:
 			for _, st := range storesTo(x) {
-				if p, ok := st.Val.(*ssa.Parameter); ok && p.Name() == name {
+				if p, ok := st.Val.(*ssa.Parameter); ok && paramName(p) == name {
 					return true
 				}
 			}
 			return false
 		case *ssa.Parameter:
-			return x.Name() == name
+			return paramName(x) == name
 		default:
 			return false
 		}
